@@ -986,9 +986,16 @@ class FnTr:
             ids = sorted(self.assigned(then_s) | self.assigned(else_s), key=lambda i: self.names.get(i, str(i)))
             ids = [i for i in ids if i in env]
             old = self.ret_value
+            # (additive) a join point NESTED inside a branch of another join point (e.g. `if (a) { if (b) return x; } else if (c)
+            # { if (d) return y; } return z;`): `old` already wraps in `inl`; the inner join's own value must be `inl <plain return
+            # value>` (its annotated type is full_ret_type + state) and its inl-case hands the finished value on to the enclosing
+            # join as `inl r`.  Without nesting the output is what it always was.
+            nested = getattr(old, '_join_base', None)
+            base = nested if nested is not None else old
 
             def rv(e, t, env_):
-                return '(inl %s)' % old(e, t, env_)
+                return '(inl %s)' % base(e, t, env_)
+            rv._join_base = base
             self.ret_value = rv
             try:
                 kt = lambda e: '(inr %s)' % self.tuple_of(ids, e)
@@ -1001,7 +1008,7 @@ class FnTr:
             rn = self.fresh('r')
             return ('let %s : (%s + %s)%%type := (if %s then\n%s\nelse\n%s) in\nmatch %s with\n| inl %s => %s\n| inr %s =>\n%s\nend'
                     % (j, self.full_ret_type(), self.tuple_type(ids), c, a, b, j, rn,
-                       (old.__self__._wrap_ret(rn) if False else rn), pat.lstrip("'"), k(env2)))
+                       ('(inl %s)' % rn if nested is not None else rn), pat.lstrip("'"), k(env2)))
         a = self.stmt(then_s, env, k if ft else (lambda e: self.unreachable()))
         b = self.stmt(else_s, env, k if fe else (lambda e: self.unreachable()))
         return '(if %s then\n%s\nelse\n%s)' % (c, a, b)
@@ -1297,6 +1304,117 @@ class FnTr:
         return out, plist, rt, loop, [v['name'] for (_, _, v) in state]
 
 
+# ---- (additive) decision slices: named local `bool` variables of a function that is otherwise outside the fragment ----------------
+class FnTrDecisions(FnTr):
+    """spec entry {"name": f, "coq": prefix, "locals": [v1, ..], "leaves": {"<C++ expression text>": [coq name, coq type], ..}}.
+    For every named local variable v of f (a `bool`, declared exactly once, in a single-variable DeclStmt) the SLICE of v is its
+    declaration together with the statements that follow it immediately in the same block and assign v and nothing else (no return /
+    break inside).  Nothing outside its slice may assign v - so the value v has wherever the function reads it afterwards is the value
+    at the end of the slice.  Inside a slice every sub-expression whose source text (white space removed) is a key of `leaves` is an
+    opaque INPUT of the stated type (iterator / pointer reads such as `vert->dirs`, calls such as `vert->vert->id.isConnPt()`);
+    everything else must be in the ordinary fragment and may refer only to leaves, translated constants and v itself.  Result: one
+    definition `<prefix>_<v> (leaf inputs, in the order of the spec) : bool` per variable."""
+
+    def __init__(self, ctx, decl, coqname, leaves, src_bytes):
+        FnTr.__init__(self, ctx, decl, coqname, None)
+        self.leaves = {re.sub(r'\s+', '', k_): v_ for k_, v_ in leaves.items()}
+        self.src_bytes = src_bytes
+        self.used_leaves = set()
+
+    def node_text(self, n):
+        try:
+            b, e = n['range']['begin'], n['range']['end']
+            bo = b['offset'] if 'offset' in b else b['expansionLoc']['offset']
+            eo = (e['offset'] + e.get('tokLen', 1)) if 'offset' in e else (e['expansionLoc']['offset'] + e['expansionLoc'].get('tokLen', 1))
+            return re.sub(r'\s+', '', self.src_bytes[bo:eo].decode('utf8', 'replace'))
+        except (KeyError, TypeError):
+            return None
+
+    def expr(self, n, env):
+        if isinstance(n, dict) and n.get('kind') not in ('ParenExpr',):
+            t = self.node_text(n)
+            if t is not None and t in self.leaves:
+                nm, ty = self.leaves[t]
+                self.used_leaves.add(t)
+                return (nm, ty)
+        return FnTr.expr(self, n, env)
+
+    def slices(self, names):
+        body = [c for c in self.decl.get('inner', []) if c.get('kind') == 'CompoundStmt'][0]
+        found = {nm: [] for nm in names}
+
+        def walk(n):
+            if not isinstance(n, dict):
+                return
+            kids = n.get('inner', [])
+            if n.get('kind') == 'CompoundStmt':
+                for i, c in enumerate(kids):
+                    if isinstance(c, dict) and c.get('kind') == 'DeclStmt':
+                        vs = [v for v in c.get('inner', []) if v.get('kind') == 'VarDecl']
+                        for v in vs:
+                            if v.get('name') in found:
+                                if len(vs) != 1:
+                                    self.bad('%s is declared in a multi-declaration' % v['name'])
+                                found[v['name']].append((n, i, c, v))
+            for c in kids:
+                walk(c)
+        walk(body)
+        out = []
+        for nm in names:
+            if len(found[nm]) != 1:
+                self.bad('%d declarations of local %s (expected exactly one)' % (len(found[nm]), nm))
+            comp, idx, ds, v = found[nm][0]
+            if self.ctx.map_type(qt(v)) != 'bool':
+                self.bad('local %s is not a bool' % nm)
+            vid = v['id']
+            sl = [ds]
+            for st in comp['inner'][idx + 1:]:
+                if not isinstance(st, dict) or self.assigned(st) != {vid} or self.can_return(st) or self.can_break(st):
+                    break
+                sl.append(st)
+            inside = set()
+
+            def ids_in(m):
+                if isinstance(m, dict):
+                    inside.add(id(m))
+                    for c in m.get('inner', []):
+                        ids_in(c)
+            for st in sl:
+                ids_in(st)
+
+            def outside_assign(m):
+                # a statement-level node outside the slice that assigns v
+                if not isinstance(m, dict):
+                    return False
+                if id(m) in inside:
+                    return False
+                if m.get('kind') in ('BinaryOperator', 'CompoundAssignOperator', 'UnaryOperator') and vid in self.assigned(m):
+                    return True
+                return any(outside_assign(c) for c in m.get('inner', []))
+            if outside_assign(body):
+                self.bad('local %s is assigned outside its slice' % nm)
+            out.append((nm, v, sl))
+        return out
+
+    def translate_decisions(self, names):
+        params = []
+        for key, (nm, ty) in self.leaves.items():
+            if (nm, ty) not in params:
+                params.append((nm, ty))
+        res = []
+        for nm, v, sl in self.slices(names):
+            self.ret_ty = 'bool'
+            self.outs = []
+            env = {}
+            term = self.stmts(sl, env, lambda e: e[v['id']])
+            ps = ' '.join('(%s : %s)' % (n_, t_) for n_, t_ in params)
+            res.append((nm, sl, 'Definition %s_%s %s : bool :=\n%s.\n' % (self.coqname, nm, ps, term)))
+        unused = [k_ for k_ in self.leaves if k_ not in self.used_leaves]
+        if unused:
+            self.bad('leaf expressions that occur in no slice: %s' % unused)
+        return res, params
+
+
 def translate_const(ctx, repo, srcfile, name):
     docs = clang_dump(repo, srcfile, name)
     for d in docs:
@@ -1589,6 +1707,34 @@ def run_module(spec, mod, repo, outdir, emit=True):
             ok = False
             out.append('(* UNSUPPORTED loop of %s: %s *)\n' % (name, e))
             meta.append({'name': name + ' [loop calling %s]' % fs['loop_calling'], 'status': 'unsupported', 'reason': str(e)})
+    # (additive) `decisions`: slices of named local bool variables (FnTrDecisions)
+    for dsp in mod.get('decisions', []):
+        name = dsp['name']
+        short = name.split('::')[-1]
+        srcfile = dsp.get('file', mod['file'])
+        try:
+            docs = clang_dump(repo, srcfile, short)
+            d = None
+            for cand in docs:
+                if cand.get('kind') in ('FunctionDecl', 'CXXMethodDecl') and cand.get('name') == short and has_body(cand):
+                    d = cand
+            if d is None:
+                raise Unsupported('definition of %s not found in %s' % (name, srcfile))
+            tr = FnTrDecisions(ctx, d, dsp['coq'], dsp['leaves'], open(os.path.join(repo, 'cola', srcfile), 'rb').read())
+            defs, params = tr.translate_decisions(dsp['locals'])
+            for nm, sl, txt in defs:
+                srcf, l0, _, h0 = source_text(repo, sl[0], srcfile)
+                _, _, l1, _ = source_text(repo, sl[-1], srcfile)
+                hs = hashlib.sha256(''.join(tr.node_text(st) or '' for st in sl).encode()).hexdigest()[:16]
+                out.append('(* local %s of %s: its declaration and the statements assigning it  %s:%d-%d  sha256/16=%s *)'
+                           % (nm, name, os.path.join(repo, 'cola', srcfile), l0, l1, hs))
+                out.append(txt)
+                meta.append({'name': '%s [local %s]' % (name, nm), 'coq': '%s_%s' % (dsp['coq'], nm), 'file': srcfile, 'lines': [l0, l1],
+                             'hash': hs, 'status': 'ok', 'params': params, 'ret': 'bool'})
+        except Unsupported as e:
+            ok = False
+            out.append('(* UNSUPPORTED decisions of %s: %s *)\n' % (name, e))
+            meta.append({'name': name + ' [decisions]', 'status': 'unsupported', 'reason': str(e)})
     if not emit:
         return ok, meta, ctx
     path = os.path.join(outdir, mod['module'] + '.v')
